@@ -971,6 +971,7 @@ class ModelFeatures:
             and self.direct_effect == other.direct_effect
             and self.effect_comp == other.effect_comp
             and self.indirect_effect == other.indirect_effect
+            and self.metabolite == other.metabolite
         )
 
     def _eq_transits(self, other):
@@ -996,7 +997,7 @@ class ModelFeatures:
         lhs = self._extract_covariates()
         rhs = other._extract_covariates()
         # Should OPTIONAL be ignored?
-        return all(c in rhs for c in lhs)
+        return lhs == rhs
 
     def _extract_peripherals(self):
         peripheral_dict = {"MET": set(), "DRUG": set()}
